@@ -56,6 +56,7 @@ class PrivateTypeError(TypeError):
 CALL_ONLY = (PrivateTypeError,)
 # (a TypeError out of a plain ATTRIBUTE access propagates too: Environment.getattr / getitem only turn it into
 # undefined for ITEM access; so "attr" events qualify, "item" / "len" / "iter" ones do not)
+# ("len" is deliberately absent: CPython's own list() / length-hint machinery swallows a TypeError out of __len__)
 CALL_KINDS = ("call", "acall", "gcall", "agen", "anext", "next", "gcoro", "gen", "attr")
 
 
